@@ -610,6 +610,36 @@ fn fill_missing_shreds(
     }
 }
 
+/// Verification hook: Reed-Solomon encodes raw payload bytes exactly as [`RegularShredder`] does.
+///
+/// Returns the raw data and coding shards.
+#[cfg(feature = "verif-hooks")]
+pub fn verif_rs_encode(payload: &[u8]) -> Result<(Vec<Vec<u8>>, Vec<Vec<u8>>), ShredError> {
+    let raw = RegularShredder::default().0.shred(payload)?;
+    Ok((raw.data, raw.coding))
+}
+
+/// Verification hook: signs and assembles output shreds from arbitrary raw shards.
+///
+/// This is what a (possibly Byzantine) leader holding `sk` can produce for a slice.
+/// Requires `data.len() + coding.len() == TOTAL_SHREDS`.
+#[cfg(feature = "verif-hooks")]
+pub fn verif_shreds_from_raw(
+    slot: crate::Slot,
+    slice_index: crate::types::SliceIndex,
+    is_last: bool,
+    data: Vec<Vec<u8>>,
+    coding: Vec<Vec<u8>>,
+    sk: &SecretKey,
+) -> [ValidatedShred; TOTAL_SHREDS] {
+    let header = SliceHeader {
+        slot,
+        slice_index,
+        is_last,
+    };
+    data_and_coding_to_output_shreds(header, RawShreds { data, coding }, sk)
+}
+
 /// Builds the Merkle tree for a slice and verifies it matches the expected root.
 ///
 /// Returns the tree if the root matches, otherwise returns [`DeshredError::InvalidMerkleTree`].
